@@ -121,7 +121,76 @@ def run(ctx):
                     bits = [b for lo, hi in ranges for b in range(lo, hi)]
                     ok = len(bits) == len(set(bits)) and (t.size is None or all(0 <= b < t.size for b in bits))
                     ctx.ob("C08.R5", "%s:%s" % (t.cdef._module.rel, t.name), "field `%s` %s: parts disjoint and inside the %s-bit token" % (f, ranges, t.size), ok, construct="field-bits:%s.%s" % (t.name, f))
+    _x86_register_fields(ctx)
 
 
 # mnemonic pairs that are architecturally the same instruction (aliases)
 ALIASES = {frozenset(p) for p in (("jnz", "jne"), ("jz", "jeq"), ("db", "."), ("dw", "."), ("dd", "."), ("dq", "."), ("dcd", "."), ("dcd", "dd"), ("jnc", "jlo"), ("jc", "jhs"))}
+
+
+def _x86_register_fields(ctx):
+    """R6: x86-64 splits a register number into a 3-bit ModRM/SIB/opcode field and a REX bit.  The special
+    encodings (rm=100 -> SIB follows, rm=101 with mod=00 -> disp32/RIP) are properties of the 3-bit field, so
+    r12/r13 need the same treatment as rsp/rbp; a 3-bit field may only receive a value < 8."""
+    from ..core import try_const, last_name
+    ctx.rule("C08.R6", "x86-64: encoding special cases are decided on the 3-bit register field (regbits), and a 3-bit register field only receives regbits / num & 7 / the number of a register class without extended registers", floor=20)
+    R = "ppci/arch/x86_64/registers.py"
+    rm = ctx.project.module(R)
+    maxnum = {}
+    for st in rm.tree.body:
+        if isinstance(st, ast.Assign) and isinstance(st.value, ast.Call) and isinstance(st.value.func, ast.Name) and len(st.value.args) >= 2:
+            n = try_const(st.value.args[1])
+            if isinstance(n, int):
+                maxnum[st.value.func.id] = max(maxnum.get(st.value.func.id, 0), n)
+    ctx.need(maxnum.get("Register64", 0) >= 15 and "Register16" in maxnum, "x86_64 register numbers not read (%s)" % maxnum)
+    n_cmp = n_set = 0
+    for rel in ("ppci/arch/x86_64/instructions.py", "ppci/arch/x86_64/sse2_instructions.py", "ppci/arch/x86_64/x87_instructions.py"):
+        mod = ctx.project.module(rel)
+        for cls in [c for c in ast.walk(mod.tree) if isinstance(c, ast.ClassDef)]:
+            opcls = {}
+            for st in cls.body:
+                if isinstance(st, ast.Assign) and isinstance(st.value, ast.Call) and norm(st.value.func) == "Operand" and len(st.value.args) >= 2:
+                    opcls[norm(st.targets[0])] = norm(st.value.args[1])
+            # inherited operand declarations
+            if not hasattr(cls, "_module"):
+                cls._module = mod
+            for b in ctx.project.mro(cls)[1:]:
+                for st in getattr(b, "body", []):
+                    if isinstance(st, ast.Assign) and isinstance(st.value, ast.Call) and norm(st.value.func) == "Operand" and len(st.value.args) >= 2:
+                        opcls.setdefault(norm(st.targets[0]), norm(st.value.args[1]))
+            site = "%s:%s" % (rel, cls.name)
+            for fn in [f for f in cls.body if isinstance(f, ast.FunctionDef)]:
+                for n in ast.walk(fn):
+                    if isinstance(n, ast.Compare) and len(n.ops) == 1:
+                        sides = [n.left, n.comparators[0]]
+                        regside = [s for s in sides if isinstance(s, ast.Attribute) and s.attr in ("num", "regbits")]
+                        const = [s for s in sides if isinstance(try_const(s), int)]
+                        if regside and const:
+                            n_cmp += 1
+                            ctx.ob("C08.R6", site, "`%s`: a register is compared with an encoding constant through its 3-bit field (r12/r13 encode like rsp/rbp in ModRM and need the same SIB / displacement form)" % norm(n),
+                                   regside[0].attr == "regbits", construct="special-case:%s.%s:%s" % (cls.name, fn.name, norm(n)), node=n)
+                    val = fld = None
+                    if isinstance(n, ast.Call) and last_name(n) == "set_field" and len(n.args) == 2 and try_const(n.args[0]) in ("reg", "rm", "base", "index"):
+                        fld, val = try_const(n.args[0]), n.args[1]
+                    elif isinstance(n, ast.Assign) and isinstance(n.targets[0], ast.Attribute) and n.targets[0].attr in ("reg", "rm", "base", "index") and norm(n.targets[0].value).startswith("tokens"):
+                        fld, val = n.targets[0].attr, n.value
+                    if val is None or not any(isinstance(x, ast.Attribute) and x.attr in ("num", "regbits") for x in ast.walk(val)):
+                        continue
+                    n_set += 1
+                    ok = None
+                    if isinstance(val, ast.Attribute) and val.attr == "regbits":
+                        ok = True
+                    elif isinstance(val, ast.BinOp) and isinstance(val.op, ast.BitAnd) and 0 <= (try_const(val.right) if try_const(val.right) is not None else -1) <= 7:
+                        ok = True
+                    elif isinstance(val, ast.Attribute) and val.attr == "num":
+                        owner = norm(val.value).replace("self.", "")
+                        rc = opcls.get(owner)
+                        ok = rc in maxnum and maxnum[rc] <= 7
+                        if rc is None or rc not in maxnum:
+                            ctx.undecided("C08.R6", site, "register class of `%s` not resolved" % norm(val))
+                            continue
+                    if ok is None:
+                        ctx.undecided("C08.R6", site, "value `%s` of 3-bit field %s not interpreted" % (norm(val), fld))
+                        continue
+                    ctx.ob("C08.R6", site, "3-bit field `%s` receives `%s`, a value below 8" % (fld, norm(val)), ok, construct="field3:%s.%s:%s" % (cls.name, fld, norm(val)), node=n)
+    ctx.need(n_cmp >= 3 and n_set >= 15, "x86_64 register field sites not found (%d comparisons, %d field stores)" % (n_cmp, n_set))
